@@ -78,6 +78,11 @@ CHECKS = {
          "hidden/__MACOSX/nested-archive/unsupported entries and unicode (incl. astral) names: read_archive must yield exactly the supported visible members in order, each with a to_json identical to extracting the member's bytes "
          "alone under the path 'archive!/member'; a corrupt member removes only itself.",
          "zipfile/tarfile and the harness's 7z writer are trusted packers; an empty plain tar (undetectable) is outside the domain.", "DESIGN.md §4 C10"),
+ "C09": ("exploration", "Hypothesis-generated hostile archives x consumer behaviours executed in a monitored worker process (private TMPDIR, sys.addaudithook file-system monitor, canary files)",
+         "ZIP/TAR(.gz/.bz2/.xz)/7z archives over a hostile member-name grammar (absolute, ../ chains, back-slashes, drive letters, empty, very long, unicode, names of existing canary files), TAR links/devices/fifos aimed at the "
+         "canaries, 7z entries with and without streams and skipped member classes are consumed by exhaust / take-k-then-close / abandon / throw consumers; every Python-level file-system event must stay inside the private temp root "
+         "(reads also allowed in interpreter/package files), canaries stay intact and never show up in results, the temp root is empty afterwards, skipped classes yield nothing, and results do not change with host directory content.",
+         "Audit hooks observe Python-level I/O only; the worker is warmed up before monitoring; names are drawn from a fixed hostile vocabulary plus shrinker variations.", "DESIGN.md §4 C09"),
 }
 NOT_YET = {}
 
